@@ -18,6 +18,7 @@ def case(draw):
         pos = [[draw(st.integers(0, 4095)) / 4096.0 * L for _ in range(3)] for _ in range(nb)]
         frames.append(dict(L=L, pos=pos))
     return dict(nb=nb, ntypes=ntypes, frames=frames, nt=draw(st.integers(2, 8)), imc=draw(st.booleans()),
+                dimers=draw(st.booleans()),
                 block=draw(st.sampled_from([0, 0, 1, 2])), first=draw(st.sampled_from([None, None, 1, 2])),
                 nframes=draw(st.sampled_from([None, None, 1, 2, 3])), cross=draw(st.booleans()))
 
@@ -25,19 +26,30 @@ def case(draw):
 def write_inputs(c, d):
     nb, nt = c["nb"], c["ntypes"]
     na = nb if nt == 1 else nb // 2
+    dimers = bool(c.get("dimers")) and nb >= 2
     top = "<topology>\n <molecules>\n"
-    top += f'  <molecule name="MA" nmols="{na}" nbeads="1">\n   <bead name="A" type="A" mass="1.0" q="0.0" />\n  </molecule>\n'
-    if nt == 2:
-        top += f'  <molecule name="MB" nmols="{nb - na}" nbeads="1">\n   <bead name="B" type="B" mass="2.0" q="0.0" />\n  </molecule>\n'
-    top += " </molecules>\n</topology>\n"
+    if dimers:
+        # bonded two-bead molecules (beads i and i+1): bonded distribution + exclusions in the xml topology
+        nb -= nb % 2
+        c = dict(c, nb=nb)
+        tb = "B" if nt == 2 else "A"
+        top += (f'  <molecule name="DIM" nmols="{nb // 2}" nbeads="2">\n   <bead name="A1" type="A" mass="1.0" q="0.0" />\n'
+                f'   <bead name="B1" type="{tb}" mass="2.0" q="0.0" />\n  </molecule>\n </molecules>\n'
+                ' <bonded>\n  <bond>\n   <name>bond</name>\n   <beads>\n    DIM:A1 DIM:B1\n   </beads>\n  </bond>\n </bonded>\n</topology>\n')
+    else:
+        top += f'  <molecule name="MA" nmols="{na}" nbeads="1">\n   <bead name="A" type="A" mass="1.0" q="0.0" />\n  </molecule>\n'
+        if nt == 2:
+            top += f'  <molecule name="MB" nmols="{nb - na}" nbeads="1">\n   <bead name="B" type="B" mass="2.0" q="0.0" />\n  </molecule>\n'
+        top += " </molecules>\n</topology>\n"
     open(os.path.join(d, "top.xml"), "w").write(top)
     with open(os.path.join(d, "traj.dump"), "w") as f:
         for k, fr in enumerate(c["frames"]):
             LA = fr["L"] * 10.0
             f.write(f"ITEM: TIMESTEP\n{k}\nITEM: NUMBER OF ATOMS\n{nb}\nITEM: BOX BOUNDS pp pp pp\n0 {LA:.10f}\n0 {LA:.10f}\n0 {LA:.10f}\n"
                     "ITEM: ATOMS id type x y z\n")
-            for i, p in enumerate(fr["pos"]):
-                f.write(f"{i + 1} {0 if i < na else 1} {p[0] * 10:.8f} {p[1] * 10:.8f} {p[2] * 10:.8f}\n")
+            for i, p in enumerate(fr["pos"][:nb]):
+                ty = (i % 2 if nt == 2 else 0) if dimers else (0 if i < na else 1)
+                f.write(f"{i + 1} {ty} {p[0] * 10:.8f} {p[1] * 10:.8f} {p[2] * 10:.8f}\n")
     inter = [("A-A", "A", "A")]
     if nt == 2:
         inter.append(("B-B", "B", "B"))
@@ -47,6 +59,8 @@ def write_inputs(c, d):
     for name, t1, t2 in inter:
         s += (f" <non-bonded>\n  <name>{name}</name>\n  <type1>{t1}</type1>\n  <type2>{t2}</type2>\n  <min>0.0</min>\n  <max>1.0</max>\n"
               "  <step>0.1</step>\n  <inverse><imc><group>g</group></imc><target>" + name + ".dist.tgt</target></inverse>\n </non-bonded>\n")
+    if dimers:
+        s += " <bonded>\n  <name>bond</name>\n  <min>0.0</min>\n  <max>6.0</max>\n  <step>0.25</step>\n </bonded>\n"
     s += "</cg>\n"
     open(os.path.join(d, "settings.xml"), "w").write(s)
     for name, _, _ in inter:
@@ -90,6 +104,8 @@ def run_case(c, ctx, d):
         r.cls("imc")
     if c["block"]:
         r.cls("blocks")
+    if c.get("dimers") and c["nb"] >= 2:
+        r.cls("bonded-dimers(xml bond, exclusions)")
     nsel = len(c["frames"]) - (max(c["first"] or 1, 1) - 1)
     if c["nframes"] is not None:
         nsel = min(nsel, c["nframes"])
